@@ -1,5 +1,5 @@
 SPECIFICATION Spec
 CONSTANTS
   Tier = "thorough"
-  StrictAddr = FALSE
+  StrictAddr = TRUE
 INVARIANTS Emit EmitPack
